@@ -31,6 +31,10 @@ func propC04(c *Ctx) {
 		ruleAssertInhabited(c, rai, func(pp string) bool { return pp == modPath+"/encoder" })
 		rgr := c.Rule("gob-register-cover", "every data object type the encoder has a codec for is registered with gob: such a value can be nested in an object that is written through gob", 8)
 		ruleGobRegisterCover(c, rgr)
+		rms := c.Rule("module-name-stamped", "every successful return of BuiltinModule.Import has assigned the module name into the copied attributes (the decoder re-binds module objects by that name)", 1)
+		ruleModuleNameStamped(c, rms)
+		rgi := c.Rule("gob-register-init", "every gob registration of the encoder package happens during package initialisation (a process that only decodes has the types registered)", 3)
+		ruleGobRegisterInit(c, rgi)
 		reg := c.Rule("encode-guard-survives", "every branch of the encoding functions that reads a field of an encoded struct reads a field the decoding functions restore: encoding a decoded Bytecode takes the same decisions as encoding the compiled one", 5)
 		ruleEncodeGuardSurvives(c, reg)
 		rsl := c.Rule("syncmap-lock", "the encoder walks a SyncMap's map only while it holds the SyncMap's lock (a decoded Bytecode links the host's live module objects: re-encoding it runs beside the host's writers)", 1)
